@@ -182,6 +182,9 @@ STORES = ['active', 'preactive', 'empty']
 ID_MODES = ['all', 'none']       # plus ('missing', k)
 ERR = [None, BEO.STOP, BEO.CONTINUE, BEO.UNDO]
 ORDER = [None, True, False]
+# a request of ANOTHER client served by the same engine immediately before the batch (its header
+# options must not carry over): Continue with a failing first item / explicit Stop / order option
+PRE = [None, 'continue', 'stop', 'ordered']
 VERSION = (1, 2)
 
 _STORE_CACHE = {}
@@ -212,9 +215,9 @@ def store(kind):
 def header_variants(n, tier):
     """(id_mode, error option, order option, store) with at most one deviation from the default
     (two for batches of length <= 2)."""
-    default = ('all', None, None, 'active')
+    default = ('all', None, None, 'active', None)
     idm = ['none'] + [('missing', k) for k in range(n)] if n > 1 else ['none']
-    dims = [idm, ERR[1:], ORDER[1:], STORES[1:]]
+    dims = [idm, ERR[1:], ORDER[1:], STORES[1:], PRE[1:]]
     out = [default]
     for d, vals in enumerate(dims):
         for v in vals:
@@ -222,7 +225,7 @@ def header_variants(n, tier):
             h[d] = v
             out.append(tuple(h))
     if n <= 2:
-        for d1, d2 in itertools.combinations(range(4), 2):
+        for d1, d2 in itertools.combinations(range(5), 2):
             for v1 in dims[d1]:
                 for v2 in dims[d2]:
                     h = list(default)
@@ -245,7 +248,8 @@ CREATED_TAGS = [W.TAG.UNIQUE_IDENTIFIER.value]
 
 def run_batch(names, hdr, version=VERSION, check_failed=True):
     """Returns (violations [(key, what)], outcome signature)."""
-    idm, err, order, st = hdr
+    idm, err, order, st = hdr[:4]
+    pre = hdr[4] if len(hdr) > 4 else None
     VERSION = version
     n = len(names)
     W.ENTROPY.constant = True
@@ -258,6 +262,11 @@ def run_batch(names, hdr, version=VERSION, check_failed=True):
         W.CLOCK.now = W.T0 + 100
         items = [ITEMS[nm][0](None) for nm in names]
         ids = ids_for(idm, n)
+        if pre is not None:
+            # read-only, so the twin needs nothing
+            w.do(VERSION, [W.p_get('999'), W.p_locate()], user='bob',
+                 error_option={'continue': BEO.CONTINUE, 'stop': BEO.STOP}.get(pre),
+                 order_option=True if pre == 'ordered' else None)
         before = w.raw_key()
         r = w.do(VERSION, items, batch_ids=ids, error_option=err, order_option=order)
         after = w.raw_key()
@@ -372,9 +381,10 @@ def _diff(d1, d2):
 
 
 def _hk(hdr):
-    idm, err, order, st = hdr
-    return "ids=%s|opt=%s|order=%s|store=%s" % (
-        idm if isinstance(idm, str) else 'missing', err.name if err else '-', order, st)
+    idm, err, order, st = hdr[:4]
+    return "ids=%s|opt=%s|order=%s|store=%s|pre=%s" % (
+        idm if isinstance(idm, str) else 'missing', err.name if err else '-', order, st,
+        hdr[4] if len(hdr) > 4 else None)
 
 
 FAMILY_HEADERS = [('all', None, None, 'active'), ('all', BEO.CONTINUE, None, 'active'),
@@ -413,7 +423,8 @@ def _worker(task):
                         list(names), version[0], version[1], _hk(hdr)),
                     {'items': list(names), 'version': list(version), 'header': [
                         hdr[0] if isinstance(hdr[0], str) else list(hdr[0]),
-                        hdr[1].name if hdr[1] else None, hdr[2], hdr[3]]})
+                        hdr[1].name if hdr[1] else None, hdr[2], hdr[3],
+                        hdr[4] if len(hdr) > 4 else None]})
     last = seqs[-1][0] if isinstance(seqs[-1][0], tuple) else seqs[-1]
     part.sample({'items': list(last)})
     wide_out = sorted(part.counters.pop('_wide', set()), key=repr)
@@ -464,7 +475,9 @@ def run(tier, seed):
         distinct_status_signatures=len(sigs), exhaustive=True,
         explanation="every item sequence up to the length bound over the alphabet x header variants "
                     "with <= 1 deviation (<= 2 for batches of length <= 2) from (ids on all items, no "
-                    "error option, no order option, store with an Active key); each batch runs on the "
+                    "error option, no order option, store with an Active key, no request before it - the "
+                    "deviation being another client's Continue / Stop / ordered request on the same "
+                    "engine right before the batch); each batch runs on the "
                     "real session+engine and is compared with a twin engine that receives only the "
                     "reported successes; failed items are re-sent alone on a copy of the twin and must "
                     "fail identically. Placeholder family: every operation that sets the ID "
@@ -485,6 +498,7 @@ def run(tier, seed):
 
 def replay(doc):
     h = doc['header']
-    hdr = (h[0] if isinstance(h[0], str) else tuple(h[0]), BEO[h[1]] if h[1] else None, h[2], h[3])
+    hdr = (h[0] if isinstance(h[0], str) else tuple(h[0]), BEO[h[1]] if h[1] else None, h[2], h[3],
+           h[4] if len(h) > 4 else None)
     bad, sig = run_batch(tuple(doc['items']), hdr, tuple(doc.get('version', VERSION)))
     return bool(bad), '\n'.join("%s: %s" % b for b in bad) or 'no violation (%s)' % (sig,)
